@@ -15,6 +15,7 @@ func init() {
 
 func checkC01(c *Ctx) {
 	l := c.L
+	checkRootRecordEmpty(c, "TABLE-root-record")
 	c.rule("DOM-nil-value", "nil value rejected before any effect on the working state", 4)
 	c.rule("OWN-config-read", "config fields read only by their owners", 6)
 	c.rule("FLOW-config-derived", "no value derived from a config field escapes its owner", 6)
